@@ -178,11 +178,15 @@ struct PartOut {
 /// when set, zero-weight roles are passed as explicit zero-weight entries (legal for the container entry points of 3a and
 /// 3a-Sha, which accept weight >= 0; the crate's own tests insert such entries): they must not change anything
 static ZERO_MODE: std::sync::atomic::AtomicBool = std::sync::atomic::AtomicBool::new(false);
+/// when set, role 0 of every labelling carries the identifier the sketchers were given as their placeholder object
+/// (u64::MAX): an item that equals the placeholder is an item like any other
+static PLACEHOLDER_ITEM_MODE: std::sync::atomic::AtomicBool = std::sync::atomic::AtomicBool::new(false);
 static SPLIT_MODE: std::sync::atomic::AtomicBool = std::sync::atomic::AtomicBool::new(false);
 
 fn partition(v: Variant, alt: bool, m: usize, sh: &Shape, t: u64, base: u64) -> Result<PartOut, String> {
     let split = SPLIT_MODE.load(std::sync::atomic::Ordering::Relaxed);
     let zeros = ZERO_MODE.load(std::sync::atomic::Ordering::Relaxed);
+    let ph = PLACEHOLDER_ITEM_MODE.load(std::sync::atomic::Ordering::Relaxed);
     let nr = sh.roles.len() as u64;
     let j = jp(&sh.roles);
     // accumulate moments chunk-wise (no per-labelling storage): n, sum x, sum x^2, sum d^2, sum d^4 with d = x - J_P
@@ -194,8 +198,8 @@ fn partition(v: Variant, alt: bool, m: usize, sh: &Shape, t: u64, base: u64) -> 
             let mut wins = vec![0u64; nr as usize];
             for tt in (c * 1024)..((c + 1) * 1024).min(t) {
                 let o = base + tt * nr;
-                let wa: Vec<(u64, f64)> = sh.roles.iter().enumerate().filter(|(_, w)| w.0 > 0. || zeros).map(|(r, w)| (o + r as u64, w.0)).collect();
-                let wb: Vec<(u64, f64)> = sh.roles.iter().enumerate().filter(|(_, w)| w.1 > 0. || zeros).map(|(r, w)| (o + r as u64, w.1)).collect();
+                let wa: Vec<(u64, f64)> = sh.roles.iter().enumerate().filter(|(_, w)| w.0 > 0. || zeros).map(|(r, w)| (if ph && r == 0 { u64::MAX } else { o + r as u64 }, w.0)).collect();
+                let wb: Vec<(u64, f64)> = sh.roles.iter().enumerate().filter(|(_, w)| w.1 > 0. || zeros).map(|(r, w)| (if ph && r == 0 { u64::MAX } else { o + r as u64 }, w.1)).collect();
                 let (mut wa, mut wb) = (wa, wb);
                 let run = |w: &mut Vec<(u64, f64)>| {
                     if split && w.len() >= 2 {
@@ -209,7 +213,7 @@ fn partition(v: Variant, alt: bool, m: usize, sh: &Shape, t: u64, base: u64) -> 
                 let sb = run(&mut wb).ok_or("entry")??.0;
                 let eq = sa.iter().zip(sb.iter()).filter(|(x, y)| x == y).count();
                 for s in &sa {
-                    let r = s.wrapping_sub(o);
+                    let r = if ph && *s == u64::MAX { 0 } else { s.wrapping_sub(o) };
                     if r < nr {
                         wins[r as usize] += 1;
                     }
@@ -349,10 +353,14 @@ pub fn run(ctx: &Ctx) -> i32 {
         .chain(shapes().into_iter().filter(|s| ["weights differing by 1e6", "common items, different weights", "nested: A inside B", "four items"].contains(&s.name)).map(|s| (usize::MAX, s, true)))
         // explicit zero-weight entries: container entry points of 3a / 3a-Sha (both), one size
         .chain(zero_shapes().into_iter().map(|s| (usize::MAX - 1, s, false)))
+        // an item whose identifier is the placeholder object of the sketcher
+        .chain(shapes().into_iter().filter(|s| ["common items, different weights", "four items"].contains(&s.name)).map(|s| (usize::MAX - 2, s, false)))
     {
         SPLIT_MODE.store(split, std::sync::atomic::Ordering::Relaxed);
         let zero_mode = shi == usize::MAX - 1;
         ZERO_MODE.store(zero_mode, std::sync::atomic::Ordering::Relaxed);
+        let ph_mode = shi == usize::MAX - 2;
+        PLACEHOLDER_ITEM_MODE.store(ph_mode, std::sync::atomic::Ordering::Relaxed);
         let scaled = shi >= n_plain;
         let j = jp(&sh.roles);
         let sumw: f64 = sh.roles.iter().map(|w| w.0).sum();
@@ -415,7 +423,7 @@ pub fn run(ctx: &Ctx) -> i32 {
                     }
                 }
                 maxz = maxz.max(z.abs());
-                let case = json!({"kind": "shape", "variant": format!("{:?}", v), "m": m, "shape": sh.name, "alt_entry": alt, "two_calls": split, "t": t, "base": b0.to_string()});
+                let case = json!({"kind": "shape", "variant": format!("{:?}", v), "m": m, "shape": sh.name, "alt_entry": alt, "two_calls": split, "placeholder_item": ph_mode, "t": t, "base": b0.to_string()});
                 if bad_mean {
                     ctx.violation(
                         &format!("mean:{:?}:{}", v, sh.name),
@@ -465,11 +473,12 @@ pub fn run(ctx: &Ctx) -> i32 {
     }
     SPLIT_MODE.store(false, std::sync::atomic::Ordering::Relaxed);
     ZERO_MODE.store(false, std::sync::atomic::Ordering::Relaxed);
+    PLACEHOLDER_ITEM_MODE.store(false, std::sync::atomic::Ordering::Relaxed);
     println!("C01 end-to-end: {} configurations, max |z| = {:.2}", pdetails.len(), maxz);
     let coverage = json!({
         "evaluations": evals,
         "distinct_nontrivial": pdetails.len() as u64 + tdetails.len() as u64 * n_tab / 4,
-        "rule": "(1) for every identifier of a block of 2^17 (2^21) and m in {2,3,4,8,16,(64,256)}, variants 2, 3 (Fnv and no-op hashers) and 3a-Sha: the single-item sketch is computed by the real code and the per-position register (hook H2) law is compared with Exp(1/m) (variant 2) resp. Exp(ln(m/(m-1))) (variants 3) by KS, the position of the minimum with the uniform law by chi2; (2) 12 weighted-set shapes, 2 more whose absent items are explicit zero-weight entries (container entry points of 3a / 3a-Sha, m = 8), 4 of them again with every set fed in two calls (lighter half first; m = 8), plus 8 scaled ones (two shapes with all weights multiplied by 2^70, 2^-70, 1e15, 2^600; m=8, both entry points of every variant) (equal weights, identical, disjoint, nested, weights differing by 1e6, 1 vs 300, 200 pseudo-random weights, common items with different weights, sets of two, three and four items) x m in {2,3,8,32,(4,128)} x 6 variants (2, 3, 3a, 3a-Sha, and 2 / 3a with the no-op hasher) x alternating entry points (hash_item / IndexMap / HashMap) on T disjoint labellings: |mean - J_P| <= 6 se with J_P computed from its definition, MSE <= J_P(1-J_P)/m + 6 se; (3) on the same runs the share of positions won by each item of A against w/sum(w); exceedances are confirmed on a 4x larger fresh block; distinct = configurations + block elements (one per identifier, conservatively a quarter counted)",
+        "rule": "(1) for every identifier of a block of 2^17 (2^21) and m in {2,3,4,8,16,(64,256)}, variants 2, 3 (Fnv and no-op hashers) and 3a-Sha: the single-item sketch is computed by the real code and the per-position register (hook H2) law is compared with Exp(1/m) (variant 2) resp. Exp(ln(m/(m-1))) (variants 3) by KS, the position of the minimum with the uniform law by chi2; (2) 12 weighted-set shapes, 2 of them again with one item carrying the sketcher's placeholder identifier, 2 more whose absent items are explicit zero-weight entries (container entry points of 3a / 3a-Sha, m = 8), 4 of them again with every set fed in two calls (lighter half first; m = 8), plus 8 scaled ones (two shapes with all weights multiplied by 2^70, 2^-70, 1e15, 2^600; m=8, both entry points of every variant) (equal weights, identical, disjoint, nested, weights differing by 1e6, 1 vs 300, 200 pseudo-random weights, common items with different weights, sets of two, three and four items) x m in {2,3,8,32,(4,128)} x 6 variants (2, 3, 3a, 3a-Sha, and 2 / 3a with the no-op hasher) x alternating entry points (hash_item / IndexMap / HashMap) on T disjoint labellings: |mean - J_P| <= 6 se with J_P computed from its definition, MSE <= J_P(1-J_P)/m + 6 se; (3) on the same runs the share of positions won by each item of A against w/sum(w); exceedances are confirmed on a 4x larger fresh block; distinct = configurations + block elements (one per identifier, conservatively a quarter counted)",
         "samples": [
             {"table": {"variant": "P3", "m": 8, "item": base, "weight": 1.0}},
             {"shape": {"name": "weights differing by 1e6", "J_P": jp(&shapes()[4].roles)}},
@@ -502,6 +511,7 @@ pub fn replay(_ctx: &Ctx, case: &Value) -> Result<(bool, String), String> {
             ZERO_MODE.store(zero_shapes().iter().any(|s| s.name == name), std::sync::atomic::Ordering::Relaxed);
             let alt = case["alt_entry"].as_bool().unwrap_or(false);
             SPLIT_MODE.store(case["two_calls"].as_bool().unwrap_or(false), std::sync::atomic::Ordering::Relaxed);
+            PLACEHOLDER_ITEM_MODE.store(case["placeholder_item"].as_bool().unwrap_or(false), std::sync::atomic::Ordering::Relaxed);
             let t = case["t"].as_u64().unwrap_or(10_000);
             let base: u64 = case["base"].as_str().unwrap_or("0").parse().unwrap_or(0);
             let p = partition(v, alt, m, &sh, t, base)?;
